@@ -215,6 +215,11 @@ impl Property for C03 {
         if d.coin("style", 1, 2) {
             circ.style = d.draw64("style.seed") | 1;
         }
+        // some gates called through towers of user-defined gates (never with torn input: the
+        // harness finds the statement a cut falls into by counting semicolons)
+        if sub != "faults" && d.coin("defs", 1, 6) {
+            circ.defs = d.draw64("defs.seed") | 1;
+        }
         let strategy = *d.pick("strategy", &[Strategy::Default, Strategy::Full, Strategy::Flow, Strategy::Clifford]);
         let mode = match sub {
             "child" => Mode::ChildStdout,
